@@ -120,8 +120,8 @@ class Gen:
         self.rng, self.size, self.demand, self.wf, self.invalid = rng, size, demand, wf, invalid
         self.use_mce = (rng.random() < 0.5) if mce is None else mce
         self.ins, self.kinds = [], []
-        self.nir = rng.choice([0, 0, 1, 2])
-        self.nkr = rng.choice([0, 1, 2, 3])
+        self.nir = rng.choice([0, 0, 1, 2, 3, 4])
+        self.nkr = rng.choice([0, 1, 2, 3, 4, 6])
         self.ffts = []
 
     def const(self):
@@ -517,6 +517,14 @@ class Gen:
             p['ir'] = [rng.choice(CONSTS) for _ in range(self.nir)]
         if self.nkr:
             p['kr'] = [rng.choice(CONSTS) for _ in range(self.nkr)]
+        # the control slots are grouped into PARAMETERS: scalars and array-valued defaults mixed
+        for key, n in (('irshape', self.nir), ('krshape', self.nkr)):
+            if n >= 2 and rng.random() < 0.6:
+                shape = []
+                while sum(shape) < n:
+                    shape.append(min(rng.choice([1, 1, 2, 2, 3]), n - sum(shape)))
+                if any(x > 1 for x in shape):
+                    p[key] = shape
         return p
 
 
@@ -568,6 +576,15 @@ SEED_PROGS = [
     {'ins': [['U', 'Saw', 'audio', [C('1')]], ['U', 'Saw', 'audio', [C('2')]], ['bin', 'add', V(0), V(1)], ['un', 'neg', V(2)],
              ['bin', 'sub', V(3), V(3)], ['out', 'audio', C('0'), [V(4)]]]},
     {'ins': [['U', 'Saw', 'audio', [C('1')]], ['un', 'neg', V(0)], ['bin', 'sub', V(1), V(1)], ['out', 'audio', C('0'), [V(2)]]]},
+    # parameters with array-valued defaults next to scalar ones, every slot read: g(a=(100, 200), b=300), ir and kr
+    {'kr': ['100', '200', '300'], 'krshape': [2, 1],
+     'ins': [['U', 'SinOsc', 'audio', [['p', 'kr', 2], C('0')]], ['U', 'SinOsc', 'audio', [['p', 'kr', 0], C('0')]],
+             ['U', 'SinOsc', 'audio', [['p', 'kr', 1], C('0')]], ['out', 'audio', C('0'), [V(0), V(1), V(2)]]]},
+    {'ir': ['1', '2', '3', '4'], 'irshape': [1, 2, 1], 'kr': ['5', '6', '7', '8', '9', '10'], 'krshape': [3, 1, 2],
+     'ins': [['U', 'Saw', 'audio', [['p', 'ir', 3]]], ['U', 'Saw', 'audio', [['p', 'ir', 0]]], ['U', 'Saw', 'audio', [['p', 'ir', 2]]],
+             ['U', 'Saw', 'control', [['p', 'kr', 3]]], ['U', 'Saw', 'control', [['p', 'kr', 5]]], ['U', 'Saw', 'control', [['p', 'kr', 2]]],
+             ['bin', 'mul', V(0), ['p', 'kr', 4]], ['bin', 'add', V(1), ['p', 'ir', 1]], ['out', 'audio', C('0'), [V(6), V(7), V(2)]],
+             ['out', 'control', C('3'), [V(3), V(4), V(5), ['p', 'kr', 0], ['p', 'kr', 1]]]]},
     # a rewritten unit that is rewritten again (the replacement of one fusion is the auxiliary unit of the next):
     # a + b + c + d (+ -> Sum3 -> Sum4), five terms, x * y - (-z) (sub -> + -> MulAdd), (a + b) + (-c) + d, with a
     # second output unit AFTER and BEFORE the sum
